@@ -20,8 +20,10 @@ Two layers.
   the correspondence run of `harness/props/c19.go`):
   - which rule group each field kind consults (`getter`): all five 32-bit integer kinds read the
     `int32` group, all five 64-bit kinds the `int64` group;
-  - `gt` / `lt` are stored in `base.DynamicValue[bool, float64]{B: x}` without `N: 1`, which
-    renders the unset boolean side: `exclusiveMinimum: false` / `exclusiveMaximum: false`;
+  - `gt` / `lt` are stored in `base.DynamicValue[bool, float64]{N: 1, B: x}` (since commit
+    de811c7; before it `N` was left `0` and the unset boolean side was rendered:
+    `exclusiveMinimum: false`, see `Impl.numericKwsBeforeDe811c7`): the numeric
+    `exclusiveMinimum` / `exclusiveMaximum` of JSON Schema 2020-12, same conversion as `gte` / `lte`;
   - 64-bit kinds are `type: string` unless `int64_encoding = NUMBER`; the numeric keywords are
     attached all the same;
   - `const` / `in` values are untagged YAML scalars, re-typed by the reader (`yamlScalar`);
@@ -409,6 +411,16 @@ def base (k : FKind) (int64Number : Bool) : List (Str × Json) := baseAnn k int6
 `applyDoubleConstraints` on the group `g`. -/
 def numericKws (g : NKind) (r : FieldRules) : List (Str × Json) :=
   optKw K.minimum (r.gte.map (boundJson g)) ++
+  optKw K.exclusiveMinimum (r.gt.map (boundJson g)) ++
+  optKw K.maximum (r.lte.map (boundJson g)) ++
+  optKw K.exclusiveMaximum (r.lt.map (boundJson g)) ++
+  optKw K.const (r.numConst.map Json.num) ++
+  (if r.numIn.isEmpty then [] else [(K.enum, Json.arr (r.numIn.map Json.num))])
+
+/-- what the same helpers published before commit de811c7 (`DynamicValue{B: x}` with `N = 0`
+renders its boolean side): kept as a regression witness, not used by `fieldSchema`. -/
+def numericKwsBeforeDe811c7 (g : NKind) (r : FieldRules) : List (Str × Json) :=
+  optKw K.minimum (r.gte.map (boundJson g)) ++
   (if r.gt.isSome then [(K.exclusiveMinimum, Json.bool false)] else []) ++
   optKw K.maximum (r.lte.map (boundJson g)) ++
   (if r.lt.isSome then [(K.exclusiveMaximum, Json.bool false)] else []) ++
@@ -553,12 +565,13 @@ def inTheoremDomain (k : FKind) (c : FCard) (int64Number : Bool) (r : FieldRules
      | .string => countOKB r.minLen && countPosB r.maxLen && r.strIn.all staysStringB &&
          (match r.strConst with | none => true | some v => staysStringB v)
      | .num nk =>
-       r.group == nk && r.gt.isNone && r.lt.isNone &&
-       (if nk == .int32 || (nk == .int64 && int64Number) then intBoundB r.gte && intBoundB r.lte
+       r.group == nk &&
+       (if nk == .int32 || (nk == .int64 && int64Number) then
+          intBoundB r.gte && intBoundB r.lte && intBoundB r.gt && intBoundB r.lt
         else if nk.isFloat then
-          ((parsesB r.gte && parsesB r.lte && r.numIn.isEmpty && r.numConst.isNone &&
-              (nk == .double || (wideExactB r.gte && wideExactB r.lte))) ||
-           (r.gte.isNone && r.lte.isNone))
+          ((parsesB r.gte && parsesB r.lte && parsesB r.gt && parsesB r.lt && r.numIn.isEmpty && r.numConst.isNone &&
+              (nk == .double || (wideExactB r.gte && wideExactB r.lte && wideExactB r.gt && wideExactB r.lt))) ||
+           (r.gte.isNone && r.lte.isNone && r.gt.isNone && r.lt.isNone))
         else false)
      | .bool => false)
   | .repeated => (k == .string || (k == .num .int32 && !int64Number)) && countOKB r.minItems && countPosB r.maxItems
